@@ -104,6 +104,21 @@ func runC02(c *core.Ctx) {
 			}
 		}
 	}
+	// a whole-file reference to a file that holds nothing but a reference: one more link of the chain
+	for _, pos := range positions {
+		if !strings.HasPrefix(pos.name, "components.") && pos.name != "paths./pi" && pos.name != "schema.properties.p" && pos.name != "operation.parameters[]" {
+			continue
+		}
+		for _, form := range c02Forms {
+			if c.Mine(idx) {
+				b := newTreeBuilder("w")
+				root := refRootSkeleton()
+				plan := b.plant(root, "w/root.json", pos, form, "chain-through-file-holding-a-reference", "plain")
+				c02Tree(c, b.finish("w/root.json", root, []refPlan{plan}), false)
+			}
+			idx++
+		}
+	}
 	// combined trees: all positions at once, rotating forms/shapes/spellings
 	for rot := 0; rot < 9; rot++ {
 		if c.Mine(idx) {
@@ -377,6 +392,21 @@ func c02Special() []refTree {
 		{Position: "components.parameters.Site", Kind: "parameter", Form: "whole-file", Shape: "whole-file-element-pointing-back-into-root", Ref: "params/p.json", Marker: "MARKPFILE"},
 		{Position: "nestedpath:X/a", Kind: "schema", Form: "fragment", Shape: "whole-file-element-pointing-back-into-root", Ref: "defs.json#/components/schemas/Y", Marker: "MARKBESIDEROOT"},
 	})
+	// fragments outside the components section (an extension or an unknown top-level member of the named file); the referring
+	// document has a member of the same name, which is not what the reference designates
+	for _, k := range refKinds {
+		if k.coll == "" {
+			continue
+		}
+		for _, top := range []string{"x-defs", "definitions"} {
+			rootX := refRootSkeleton()
+			rootX[top] = gen.S{"Foo": targetObject(k.name, "DECOYINREFERRER")}
+			dig(rootX, "components", k.coll)["Site"] = gen.S{"$ref": "far/lib.json#/" + top + "/Foo"}
+			libX := gen.S{"openapi": "3.0.3", "info": gen.S{"title": "lib", "version": "1"}, "paths": gen.S{}, top: gen.S{"Foo": targetObject(k.name, "MARKINNAMEDFILE")}}
+			mk(rootX, map[string]gen.S{"w/far/lib.json": libX}, []refPlan{
+				{Position: "components." + k.coll + ".Site", Kind: k.name, Form: "fragment", Shape: "fragment-outside-components-" + top, Ref: "far/lib.json#/" + top + "/Foo", Marker: "MARKINNAMEDFILE"}})
+		}
+	}
 	// JSON pointer escapes in component names
 	root5 := refRootSkeleton()
 	dig(root5, "components", "schemas")["rate~1min"] = gen.S{"type": "object", "title": "MARKTILDE1"}
@@ -420,6 +450,14 @@ func c02Negative() []refTree {
 		libDoc := gen.S{"openapi": "3.0.3", "info": gen.S{"title": "lib", "version": "1"}, "paths": gen.S{}, "components": gen.S{coll: gen.S{"Other": targetObject(pos.kind, "MARKOTHER")}}}
 		out = append(out, refTree{Root: "w/root.json", Files: map[string]string{"w/root.json": mustJSON(root), "w/lib.json": mustJSON(libDoc)}, External: true,
 			Plans: []refPlan{{Position: pos.name, Kind: pos.kind, Form: "fragment", Shape: "direct", Ref: "lib.json#/components/" + coll + "/Missing", Fails: "missing-fragment"}}})
+		// a fragment that the named file does not have although the REFERRING document has one of that name
+		for _, top := range []string{"x-defs", "definitions"} {
+			root = refRootSkeleton()
+			root[top] = gen.S{"Foo": targetObject(pos.kind, "MARKINREFERRER")}
+			pos.plant(root, gen.S{"$ref": "lib.json#/" + top + "/Foo"})
+			out = append(out, refTree{Root: "w/root.json", Files: map[string]string{"w/root.json": mustJSON(root), "w/lib.json": mustJSON(libDoc)}, External: true,
+				Plans: []refPlan{{Position: pos.name, Kind: pos.kind, Form: "fragment", Shape: "direct", Ref: "lib.json#/" + top + "/Foo", Fails: "missing-fragment-present-in-referrer"}}})
+		}
 		// pointer tokens that are only the beginning of a field or collection name designate nothing
 		for _, bad := range []string{"#/component/" + coll + "/Other", "#/components/" + strings.TrimSuffix(coll, "s") + "/Other", "#/componen/" + coll + "/Other", "#/components/" + coll + "/Othe"} {
 			if coll == "" {
